@@ -50,6 +50,17 @@ Theorem C03_undo_do_en_passant : forall zt s from to,
 Proof. exact ep_roundtrip. Qed.
 Print Assumptions C03_undo_do_en_passant.
 
+(* ... and assembled: EVERY pseudo-legal (hence every legal) move of the rules on EVERY well-formed state.  rep_ok is the
+   invariant of RepRefineLegal.v (sizes, piece codes, clock below 255, castling mask and en-passant square consistent with
+   the board - what Rules.valid_position demands of them); key_ok says the castling / en-passant key components are in
+   step with the fields.  The shape hypotheses of the three theorems above are DERIVED from Rules.pseudo_legal here. *)
+From CV Require Import Engine.RepRefine Engine.RepRefineLegal Engine.RepRoundTripLegal Chess.Rules.
+Theorem C03_undo_do_every_pseudo_legal_move : forall (zt : zobrist) (s : rep) (m : move),
+  rep_ok s -> key_ok zt s -> pseudo_legal (rep_abs s) m = true ->
+  obs (undo_move zt (fst (do_move zt s (enc m))) (enc m) (snd (do_move zt s (enc m)))) = obs s.
+Proof. exact undo_do_legal. Qed.
+Print Assumptions C03_undo_do_every_pseudo_legal_move.
+
 (* C03_undo_do_partial: what is NOT covered by these theorems are the piece lists and the two bitboard families (restored
    up to the permutation that swap-remove introduces); they are tied field by field by the correspondence (op walk). *)
 
